@@ -43,12 +43,12 @@ ASSUMPTIONS = ["the damage does not spell an additional entry marker (the format
                "bogus entries inside the damaged bytes do not decode to the path of another file"]
 RULE = ("trees of 2-5 files, both tools, all parameter sets; victim entry first / middle / last; damage classes: 1-3 random bytes, many random "
         "bytes, zero-fill runs, destroyed marker, destroyed n-th delimiter, non-numeric size, garbage of the entry's length, garbage of length "
-        "0-3x the entry, entry cut short (incl. < 4 bytes), entry losing 1-40 bytes at its very end with its file intact (the last read of the "
+        "0-3x the entry, erased characters in the path with its intra-ecc destroyed, entry cut short (incl. < 4 bytes), entry losing 1-40 bytes at its very end with its file intact (the last read of the "
         "track runs into the next marker), entry reduced to its marker; some files damaged within capacity so that there is something to repair; compared "
         "with the run on the pristine ecc file; non-trivial = victim not the only entry; distinct = distinct (scenario, victim, class)")
 
 KINDS = ["few", "many", "zeros", "marker", "delim1", "delim2", "delim3", "delim4", "size", "garbage", "garbage_long", "shorten", "tiny", "tailcut",
-         "tailcut", "tailcut", "empty", "empty", "size_text", "size_text", "size_text", "size_small", "size_small"]
+         "tailcut", "tailcut", "empty", "empty", "size_text", "size_text", "size_text", "size_small", "size_small", "path_nul", "path_nul"]
 
 
 def damage_entry(rng, ent, f, s, kd):
@@ -94,6 +94,16 @@ def damage_entry(rng, ent, f, s, kd):
         txt = b"%d" % rng.choice([1, 2, 7, max(1, cur // 2), max(1, cur // 3), max(1, cur // 4), max(1, cur // 9)])
         garb = bytes(rng.choice([0x41, 0x7f, 0xfb, 0x33, rng.randrange(1, 250)]) for _ in range(eb - ea))
         ent = bytearray(bytes(ent[:a]) + txt + bytes(ent[b:ea]) + garb + bytes(ent[eb:]))
+    elif kd == "path_nul":
+        # one or more characters of the path erased (null bytes), the path's intra-ecc beyond repair: the tools must notice the NUL in the
+        # decoded path and skip the entry ("missing/corrupted character") instead of opening a wrong file name
+        a, b = f["path"][0] - s, f["path"][1] - s
+        ea, eb = f["path_ecc"][0] - s, f["path_ecc"][1] - s
+        if b > a:
+            for _ in range(rng.choice([1, 1, 2, b - a])):
+                ent[a + rng.randrange(b - a)] = 0
+        for j in range(ea, eb):
+            ent[j] = rng.choice([0x41, 0x7f, 0xfb, 0x33, rng.randrange(1, 250)])
     elif kd == "garbage":
         ent = bytearray(ent[:10] + rb(len(ent) - 10))
     elif kd == "garbage_long":
